@@ -11,3 +11,40 @@ package limiter
 //@   ensures [C15:v4mask] opts.V4Mask == ((1 <= old(opts.V4Mask) && old(opts.V4Mask) <= 32) ? old(opts.V4Mask) : 24)
 //@   ensures [C15:v6mask] opts.V6Mask == ((1 <= old(opts.V6Mask) && old(opts.V6Mask) <= 128) ? old(opts.V6Mask) : 48)
 //@   ensures [C15:burst] old(opts.Burst) > 0 ==> opts.Burst == old(opts.Burst)
+
+// ---- client_limiter.go: the bucket key (C15) ---------------------------------------------------
+// netip's methods (Unmap, Is4, Is6, PrefixFrom, Masked, Addr) are executed from their real source.
+//@ spec func is4(a netip.Addr) bool = a.z == netip.z4
+//@ spec func isMapped(a netip.Addr) bool = a.z != netip.z0 && a.z != netip.z4 && a.addr.hi == 0 && (a.addr.lo >> 32) == 0xffff
+//@ spec func isValidAddr(a netip.Addr) bool = a.z != netip.z0
+//@ spec func masksOK(cl *ClientLimiter) bool = 1 <= cl.opts.V4Mask && cl.opts.V4Mask <= 32 && 1 <= cl.opts.V6Mask && cl.opts.V6Mask <= 128
+// the top n bits of a 64-bit word (n in 0..64)
+//@ spec func top64(n int) uint64 = ^(uint64(0xffffffffffffffff) >> uint64(n < 0 ? 0 : n))
+
+//@ func (cl *ClientLimiter) mask(addr netip.Addr) (r netip.Addr)
+//@   trusted
+//@   requires cl != nil
+//@   modifies nothing
+
+// AllowN: the verdict is the token bucket's own verdict for the entry stored under the masked address, taken
+// while holding that entry's lock, after stamping it as seen now (the gc drops entries not seen for a minute).
+//@ func (cl *ClientLimiter) AllowN(addr netip.Addr, now time.Time, n int) (ok bool)
+//@   props C15
+//@   requires cl != nil && cl.m != nil
+//@   ghost ge *e = nil
+//@   ghost gk netip.Addr = addr
+//@   ghost gv bool = false
+//@   ghost held bool = false
+//@   ghost nAllow int = 0
+//@   aftercall mask: gk = ret0
+//@   aftercall LoadOrCompute: ge = ret0
+//@   assumecall LoadOrCompute: ret0 != nil && ret0.l != nil
+//@   oncall Lock: held = true
+//@   oncall Unlock: held = false
+//@   oncall AllowN: nAllow = nAllow + 1
+//@   aftercall AllowN: gv = ret0
+//@   modifies *
+//@   ensures [C15:verdict-is-the-buckets] nAllow == 1 && ok == gv && !held
+//@   callsite mask: [C15:key-from-client-address] arg1 == addr
+//@   callsite LoadOrCompute: [C15:bucket-per-masked-subnet] arg1 == gk
+//@   callsite AllowN: [C15:entry-locked-and-stamped] held && arg0 == ge.l && ge.lastSeen == now && arg1 == now && arg2 == n
